@@ -172,6 +172,11 @@ def classify(pattern, strict=False):
 
 def prop_line(d, msg=None):
     """expected line per the property, or ('throws',) when a field spec is invalid for fmt, or None if unknowable"""
+    if d['pattern'] == b'':
+        # documented switch of PatternFormatter ("No formatting is needed when the format pattern is empty",
+        # used by the JSON sinks): the empty pattern is not a format pattern in the property's sense and the
+        # formatter returns an empty statement for it
+        return b''
     vals = prop_values(d, msg); tbl = d['table']; bad = []
     def sub(m):
         key = (m.group(2) or b'', vals[m.group(1).decode('latin1')])
@@ -776,7 +781,7 @@ def make_corpus():
     ]
     big = b'a' * 65536
     findings = [
-        '# C12-empty-pattern (open): format() returns "" for the empty pattern, no newline', m0(b''), m1(1, 1, b'', b'a\nb'),
+        '# the empty pattern is the documented no-formatting switch: format() returns ""', m0(b''), m1(1, 1, b'', b'a\nb'),
         '# C12-brace-literal (open): literal braces are fmt syntax', m0(b'{{%(message)'), m0(b'{"level": "%(log_level)", "msg": "%(message)"}'),
         '# C12-srcloc-64k (open): uint16_t positions in MacroMetadata (LOG_RUNTIME_METADATA with a 65538-byte file name: line_number comes out as "aaaa" instead of "5")',
         m1(1, 0, b'%(line_number:.4)|%(message)', b'm', rt_file=b'd/' + big, rt_line=b'5'),
